@@ -9,4 +9,5 @@ INVARIANT Qos2AtMostOnce
 INVARIANT CompletedIsDelivered
 INVARIANT NoPubrelUnanswered
 INVARIANT NothingStuck
+VIEW NoHist
 CHECK_DEADLOCK FALSE
